@@ -115,7 +115,7 @@ func init() {
 	core.Register(&core.Check{
 		ID:    "C12",
 		Level: "exploration",
-		Rule: "pairs of programs that differ only in a placement selecting another code-generation strategy, for every core expression of at most 3 (quick) / 4 (thorough) nodes over the leaf alphabet {1, 2, 1.5, true, \"ab\", [1, 2], a global, nil} and the operator representatives (failing and non-boolean cores included): used vs discarded; top level vs function tail vs non-tail; last statement of a while / for body vs top level; e op K vs t = e then t op K at operand depth 1..3; e vs id(e) vs [e][0] vs t = e then t; e op e vs t = e then t op t; x = x + 1 vs x = 1 + x vs t = x then x = t + 1 for x global / local / parameter and every kind of value; if !c A else B vs if c B else A; while !c vs while id(!c); every non-boolean value as condition of if, if-else and while in every statement context. " +
+		Rule: "(also: self-increments by other steps than the int 1, in both operand orders, on globals and parameters, the result divided to tell int from float; every comparison of 8 operands incl. NaN and -Inf under a negation, as a value / through a named intermediate / as a condition / as an argument / in an array / under a further negation) pairs of programs that differ only in a placement selecting another code-generation strategy, for every core expression of at most 3 (quick) / 4 (thorough) nodes over the leaf alphabet {1, 2, 1.5, true, \"ab\", [1, 2], a global, nil} and the operator representatives (failing and non-boolean cores included): used vs discarded; top level vs function tail vs non-tail; last statement of a while / for body vs top level; e op K vs t = e then t op K at operand depth 1..3; e vs id(e) vs [e][0] vs t = e then t; e op e vs t = e then t op t; x = x + 1 vs x = 1 + x vs t = x then x = t + 1 for x global / local / parameter and every kind of value; if !c A else B vs if c B else A; while !c vs while id(!c); every non-boolean value as condition of if, if-else and while in every statement context. " +
 			"Oracle (differential, real code only): both members give the same output, the same error class and, where both expose it, the same value; conditions must be type errors. distinct = distinct pair; non-trivial = pairs in which both members ran to a value or a documented error",
 		Assumptions: []string{"no reference model: two placements of the same expression on the real pipeline are compared with each other", "pairs in which a member exhausts 200000 VM instructions are skipped and counted"},
 		Exec: func(payload string) (string, string) {
@@ -252,6 +252,50 @@ func c12Run(w *core.W) {
 				[]T{Asg("f", Fn(Ps("x"), Blk(Asg("x", Bin("+", I(1), N("x"))), Asg("x", Bin("+", I(1), N("x"))), N("x")))), Call("f", v)})
 		if !ok {
 			return
+		}
+	}
+
+	// self-increments by other steps than the int 1: `x = x + K` must be the addition it says (an increment
+	// instruction adds the int 1), so the result is also divided to tell an int from a float
+	w.Family("increment-forms-other-steps")
+	for _, v := range c05Values() {
+		for _, k := range []T{F(1), F(1.5), I(2), I(0), Un("-", I(1)), S("a"), L(I(1)), B(true), N("gi")} {
+			show := L(N("x"), Bin("/", N("x"), I(2)))
+			top := func(s ...T) []T { return append([]T{Asg("x", v)}, s...) }
+			fn := func(body ...T) []T { return []T{Asg("f", Fn(Ps("x"), Blk(body...))), Call("f", v)} }
+			ok := emit("x=x+K/t=x;x=t+K (global)", "full", top(Asg("x", Bin("+", N("x"), k)), show), top(Asg("t", N("x")), Asg("x", Bin("+", N("t"), k)), show)) &&
+				emit("x=K+x/t=x;x=K+t (global)", "full", top(Asg("x", Bin("+", k, N("x"))), show), top(Asg("t", N("x")), Asg("x", Bin("+", k, N("t"))), show)) &&
+				emit("x=x+K/t=x;x=t+K (param)", "full", fn(Asg("x", Bin("+", N("x"), k)), show), fn(Asg("t", N("x")), Asg("x", Bin("+", N("t"), k)), show)) &&
+				emit("x=K+x/t=x;x=K+t (param)", "full", fn(Asg("x", Bin("+", k, N("x"))), show), fn(Asg("t", N("x")), Asg("x", Bin("+", k, N("t"))), show)) &&
+				emit("x=x-K/t=x;x=t-K (param)", "full", fn(Asg("x", Bin("-", N("x"), k)), show), fn(Asg("t", N("x")), Asg("x", Bin("-", N("t"), k)), show))
+			if !ok {
+				return
+			}
+		}
+	}
+	// a comparison under a negation: as a value, through a named intermediate, as a condition, as an argument.
+	// With NaN, the int/float pairs and values of other kinds among the operands.
+	w.Family("negated-comparisons")
+	{
+		vals := []T{Call("aton", S("NaN")), I(1), F(1), F(1.5), S("ab"), L(I(1)), N("gi"), Call("aton", S("-Inf"))}
+		for _, op := range []string{"<", "<=", ">", ">=", "==", "!="} {
+			for _, a := range vals {
+				for _, b := range vals {
+					c := Bin(op, a, b)
+					neg := Un("!", c)
+					ok := emit("!(a op b)/t = a op b; !t", "full", []T{neg}, []T{Blk(Asg("t", c), Un("!", N("t")))}) &&
+						emit("!(a op b)/if !(a op b) true else false", "full", []T{neg}, []T{IfE(neg, B(true), B(false))}) &&
+						emit("!(a op b)/if a op b false else true", "full", []T{neg}, []T{IfE(c, B(false), B(true))}) &&
+						emit("!(a op b)/!id(a op b)", "full", []T{neg}, []T{Un("!", Call("id", c))}) &&
+						emit("[!(a op b)][0]/t", "full", []T{Ix(L(neg), I(0))}, []T{Blk(Asg("t", c), Un("!", N("t")))}) &&
+						emit("x = !(a op b); x/fn-tail", "full", []T{Blk(Asg("x", neg), N("x"))}, inFn(Asg("t", c), Un("!", N("t")))) &&
+						emit("!(a op b) & true/t", "full", []T{Bin("&", neg, B(true))}, []T{Blk(Asg("t", c), Bin("&", Un("!", N("t")), B(true)))}) &&
+						emit("!!(a op b)/a op b", "full", []T{Un("!", neg)}, []T{Blk(Asg("t", c), N("t"))})
+					if !ok {
+						return
+					}
+				}
+			}
 		}
 	}
 
